@@ -69,6 +69,8 @@ class Tap:
         if is_disc and counted:
             w.fanout_pre(self.side, packet[4] | (packet[5] << 8))
         self.target.on_packet(packet)
+        if is_disc:
+            w.closed[self.side].add(packet[4] | (packet[5] << 8))
         if is_disc and counted:
             w.fanout_post(self.side, packet[4] | (packet[5] << 8))
         if counted and w.cut_at is not None and n == w.cut_at:
@@ -78,8 +80,24 @@ class Tap:
                 w.loop.call_soon(w.fire_cut)      # at the message boundary
 
 
+class HandOver:
+    """The host's sink, at the moment the host hands a packet over (before the asynchronous pipe):
+    an ACL packet for a handle whose disconnection the host has already processed is recorded."""
+
+    def __init__(self, world, side, sink):
+        self.world, self.side, self.sink = world, side, sink
+
+    def on_packet(self, packet):
+        w = self.world
+        if len(packet) >= 3 and packet[0] == 0x02 and not w.lost[self.side]:
+            acl_handle = (packet[1] | (packet[2] << 8)) & 0x0FFF
+            if acl_handle in w.closed[self.side]:
+                w.acl_for_closed.append([self.side, acl_handle])
+        self.sink.on_packet(packet)
+
+
 class World:
-    def __init__(self, classic=False, aux=False, auto_restart=False):
+    def __init__(self, classic=False, aux=False, auto_restart=False, small_buffers=None, plain_aux=False):
         from bumble.controller import Controller
         from bumble.device import Device
         from bumble.hci import Address
@@ -109,11 +127,16 @@ class World:
         self.link = LocalLink()
         addrs = ['F0:F0:F0:F0:F0:F0', 'F1:F1:F1:F1:F1:F1', 'F2:F2:F2:F2:F2:F2']
         self.controllers = [Controller(f'C{i}', link=self.link, public_address=addrs[i]) for i in range(n)]
+        if small_buffers:
+            self.controllers[0].total_num_le_acl_data_packets = small_buffers   # read by LE Read Buffer Size
+        self.plain_aux = plain_aux
+        self.closed = [set() for _ in range(n)]   # handles whose disconnection the host has processed
+        self.acl_for_closed = []                  # ACL packets the host handed over for such a handle
         self.devices = []
         for i in range(n):
             c = self.controllers[i]
             host = Host()
-            host.hci_sink = AsyncPipeSink(Tap(self, i, 'h2c', c))
+            host.hci_sink = HandOver(self, i, AsyncPipeSink(Tap(self, i, 'h2c', c)))
             c.hci_sink = Tap(self, i, 'c2h', host)
             d = Device(address=Address(addrs[i]), host=host)
             d.classic_enabled = classic
@@ -597,6 +620,72 @@ async def prep_none(w):
     pass
 
 
+async def _prep_starved(w):
+    """Stack 0's controller has 2 LE ACL buffers.  Peer A (the second link, to stack 2) is slow:
+    the Number Of Completed Packets events for its handle are withheld, and two notifications to A
+    hold both buffers - so everything stack 0 sends on the link under test (to stack 1, "B") is
+    only queued in the host.  After the teardown of B, A's completions are released and A must
+    be able to send and drain."""
+    from bumble import hci
+    from bumble.gatt import Characteristic, Service
+    P = Characteristic.Properties
+    w.sch = Characteristic('5A5A', P.READ | P.NOTIFY, Characteristic.Permissions.READABLE, bytes(4))
+    w.devices[0].add_service(Service('5A00', [w.sch]))
+    a0 = w.aux_conns[0]
+    handle_a = a0.handle
+    c0 = w.controllers[0]
+    state = {'holding': True, 'withheld': []}
+    controller_send = c0.send_hci_packet
+
+    def send_hci_packet(packet):
+        if (state['holding'] and isinstance(packet, hci.HCI_Number_Of_Completed_Packets_Event)
+                and list(packet.connection_handles) == [handle_a]):
+            state['withheld'].append(packet)
+            return
+        controller_send(packet)
+    c0.send_hci_packet = send_hci_packet
+    server = w.devices[0].gatt_server
+    for value in (b'a0', b'a1'):
+        await w.wait(server.notify_subscriber(a0, w.sch, value, force=True), 'notify A')
+    await w.settle()
+    queue = w.devices[0].host.le_acl_packet_queue
+    if queue.max_in_flight != 2 or queue.pending != 2 or len(state['withheld']) != 2:
+        raise Budget('the two buffers of stack 0 are not held by the slow peer')
+
+    async def after_teardown(w):
+        state['holding'] = False
+        for packet in state['withheld']:
+            controller_send(packet)
+        await server.notify_subscriber(a0, w.sch, b'a2', force=True)
+        # ... which must reach the controller and be completed
+        while any(h == handle_a for _, h in queue._packets):
+            flow = asyncio.get_running_loop().create_future()
+            queue.once('flow', lambda: flow.done() or flow.set_result(None))
+            await flow
+        await queue.drain(handle_a)
+    w.after_teardown = after_teardown
+
+
+async def prep_starved_notify(w):
+    await _prep_starved(w)
+
+
+async def prep_starved_coc(w):
+    # B has an open LE credit-based channel before the buffers are taken
+    await prep_coc_open(w)
+    await _prep_starved(w)
+
+
+async def _starved_notify(w):
+    server = w.devices[0].gatt_server
+    for value in (b'b0', b'b1', b'b2'):
+        await server.notify_subscriber(w.conns[0], w.sch, value, force=True)
+
+
+async def _starved_coc_write(w):
+    w.chan.write(bytes(100))
+
+
 def _sbc_capabilities():
     from bumble import a2dp, avdtp
     I = a2dp.SbcMediaCodecInformation
@@ -797,6 +886,14 @@ PROCEDURES = {
     'hci_rssi': (False, prep_none, lambda w: [w.spawn('rssi', 0, 'hci_command', w.conns[0].get_rssi())]),
     'hci_features': (False, prep_none, lambda w: [
         w.spawn('features', 0, 'hci_event', w.conns[0].get_remote_le_features())]),
+    # the link under test can only QUEUE its outbound data in the host (see _prep_starved)
+    'starved_notify': (False, prep_starved_notify, lambda w: [
+        w.spawn('notify B', 0, 'local', _starved_notify(w))]),
+    'starved_coc': (False, prep_starved_coc, lambda w: [
+        w.spawn('write B', 0, 'local', _starved_coc_write(w))]),
+    'starved_disconnect': (False, prep_starved_notify, lambda w: [
+        w.spawn('notify B', 0, 'local', _starved_notify(w)),
+        w.spawn('disconnect', 0, 'disconnect', w.conns[0].disconnect())]),
     'adv_restart': (False, prep_none, lambda w: [
         w.spawn('disconnect', 0, 'disconnect', w.conns[0].disconnect())]),
     'adv_restart_peer': (False, prep_none, lambda w: [
@@ -869,11 +966,13 @@ async def _rfcomm_start(w):
 CUTS = [('disc', 0), ('disc', 1), ('loss', 0), ('loss', 1)]
 # the peripheral advertises with auto_restart: after the disconnection its stack restarts the advertising by
 # itself, in a task that is under cancel_on_event(FLUSH) while its HCI commands are in flight
-PROC_OPTIONS = {'adv_restart': {'auto_restart': True}, 'adv_restart_peer': {'auto_restart': True}}
+_STARVED = {'aux': True, 'small_buffers': 2, 'plain_aux': True}
+PROC_OPTIONS = {'adv_restart': {'auto_restart': True}, 'adv_restart_peer': {'auto_restart': True},
+                'starved_notify': _STARVED, 'starved_coc': _STARVED, 'starved_disconnect': _STARVED}
 # uncut run does not end with a result: Read RSSI is rejected by the virtual controller; the user never answers
 OPEN_ENDED = ('hci_rssi', 'smp_pair_prompt', 'smp_pair_retry_prompt')
 # not run in the two-link variant (long; the second link adds nothing new to them)
-NO_AUX = ('gatt_flood', 'coc_drain', 'gatt_discover')
+NO_AUX = ('gatt_flood', 'coc_drain', 'gatt_discover', 'starved_notify', 'starved_coc', 'starved_disconnect')
 
 
 # ============================================================================= one case
@@ -890,7 +989,9 @@ async def _run_case(proc, cut, k, inline=False):
     aux = proc.endswith('+aux')          # "<procedure>+aux": stack 0 also has a second, busy link to a third stack
     base_proc = proc[:-4] if aux else proc
     classic, prepare, start = PROCEDURES[base_proc]
-    w = World(classic=classic, aux=aux, **PROC_OPTIONS.get(base_proc, {}))
+    options = dict(PROC_OPTIONS.get(base_proc, {}))
+    options['aux'] = aux or options.get('aux', False)
+    w = World(classic=classic, **options)
     sides = range(w.n)
     res = {'proc': proc, 'cut': list(cut) if cut else None, 'k': k, 'inline': inline}
     try:
@@ -906,7 +1007,7 @@ async def _run_case(proc, cut, k, inline=False):
         return res
     res['handle'] = list(w.handle)
     res['before'] = [snapshot(w, i) for i in sides]
-    if aux:
+    if w.aux:
         res['aux_handle'] = [w.aux_conns[0].handle, w.aux_conns[1].handle]
     w.cut = tuple(cut) if cut else None
     w.cut_at = k if cut else None
@@ -927,6 +1028,7 @@ async def _run_case(proc, cut, k, inline=False):
     res['packets'] = w.count
     res['cut_fired'] = w.cut_fired
     res['callback_exceptions'] = list(w.callback_exceptions)
+    res['acl_for_closed'] = list(w.acl_for_closed)
     res['pre'] = w.pre
     res['pre_waiters'] = w.pre_waiters
     res['post'] = w.post
@@ -953,6 +1055,28 @@ async def _run_case(proc, cut, k, inline=False):
         res['aux_final'] = [snapshot(w, i) for i in sides]
         if not t.done():
             t.cancel()
+    after = getattr(w, 'after_teardown', None)
+    if after is not None and 'budget' not in res and not (cut and cut[0] == 'loss' and cut[1] == 0):
+        # a procedure's own epilogue (e.g. the slow peer finally reports its packets completed)
+        t = asyncio.ensure_future(after(w))
+        try:
+            await w.settle()
+            if not t.done():
+                await w.run_timers()
+        except Budget as e:
+            res['budget'] = str(e)
+        res['epilogue'] = outcome(t)
+        res['final'] = [snapshot(w, i) for i in sides]
+        res['acl_for_closed'] = list(w.acl_for_closed)
+        if not t.done():
+            t.cancel()
+    res['queues'] = []
+    for i in sides:
+        for name, q in (('le', w.devices[i].host.le_acl_packet_queue), ('acl', w.devices[i].host.acl_packet_queue)):
+            if q is not None:
+                res['queues'].append({'side': i, 'queue': name, 'pending': q.pending, 'in_flight': q._in_flight,
+                                      'waiting': len(q._packets),
+                                      'per_connection': sum(st.in_flight for st in q._connection_state.values())})
     # the HCI command gate of every stack: free at quiescence, and still usable
     res['gate'] = []
     for i in sides:
@@ -1083,6 +1207,23 @@ def oracle(res):
         if host != dev or (not lost and ctl != host):
             bad.append((f'{tag}:agree',
                         f'{tag} k={k}: side {side} layers disagree: controller {ctl} host {host} device {dev}'))
+    seen_acl = set()
+    for side, h in res.get('acl_for_closed', []):
+        if (side, h) not in seen_acl:
+            seen_acl.add((side, h))
+            bad.append((f'{tag}:acl-for-closed-handle',
+                        f'{tag} k={k}: side {side}: the host handed an ACL packet for handle {h} to the controller '
+                        f'after it had processed the disconnection of that handle (queued outbound data of a closed '
+                        f'connection was not dropped; the controller buffers it takes are never given back)'))
+    for q in res.get('queues', []):
+        if q['pending'] != q['in_flight'] + q['waiting'] or q['in_flight'] != q['per_connection']:
+            bad.append((f'{tag}:queue-accounting',
+                        f'{tag} k={k}: side {q["side"]} {q["queue"]} data queue: pending {q["pending"]}, in flight '
+                        f'{q["in_flight"]} (per connection {q["per_connection"]}), waiting {q["waiting"]}'))
+    if res.get('epilogue') == 'pending':
+        bad.append((f'{tag}:other-link:stalled',
+                    f'{tag} k={k}: after the teardown the traffic of the OTHER link of stack 0 never completes '
+                    f'(its packets / drain() wait forever for controller buffers)'))
     for side, g in enumerate(res.get('gate', [])):
         held = [name for name, v in sorted(g.items()) if v]
         if held:
